@@ -96,17 +96,18 @@ Definition without (k : nat) (cfg : deviations) : deviations :=
      d90_dropped_dm_started := if Nat.eqb k 90 then false else d90_dropped_dm_started cfg;
      d91_pending_subscribes := if Nat.eqb k 91 then false else d91_pending_subscribes cfg;
      d21_handler_stays := if Nat.eqb k 21 then false else d21_handler_stays cfg;
-     d92_cell_import_not_started := if Nat.eqb k 92 then false else d92_cell_import_not_started cfg |}.
+     d92_cell_import_not_started := if Nat.eqb k 92 then false else d92_cell_import_not_started cfg;
+     d93_fault_pins_function := if Nat.eqb k 93 then false else d93_fault_pins_function cfg |}.
 Definition switch_on (k : nat) (cfg : deviations) : bool :=
   if Nat.eqb k 16 then d16_notify_del_return cfg else if Nat.eqb k 90 then d90_dropped_dm_started cfg
   else if Nat.eqb k 91 then d91_pending_subscribes cfg else if Nat.eqb k 21 then d21_handler_stays cfg
-  else if Nat.eqb k 92 then d92_cell_import_not_started cfg else false.
+  else if Nat.eqb k 92 then d92_cell_import_not_started cfg else if Nat.eqb k 93 then d93_fault_pins_function cfg else false.
 (* A failure is attributed to Dk when the Model with the measured switches reproduces the observation and switch k is
    needed for that (without it the Model no longer reproduces it).  Nothing is attributed when the Model does not
    reproduce the observation, or when a direct clause other than the ledger/run comparison fails for another reason. *)
 Definition lcase_attrib (cfg : deviations) (c : lcase) : list nat :=
   if lcase_model_ok cfg c then
-    filter (fun k => switch_on k cfg && negb (lcase_model_ok (without k cfg) c)) [16%nat; 90%nat; 91%nat; 21%nat; 92%nat]
+    filter (fun k => switch_on k cfg && negb (lcase_model_ok (without k cfg) c)) [16%nat; 90%nat; 91%nat; 21%nat; 92%nat; 93%nat]
   else [].
 
 (* ---- replay explanation: the model's projection after every step ------------------------------ *)
